@@ -44,6 +44,8 @@ pub struct B<'a> {
     pub allow_custom: bool,
     pub allow_truncate: bool,
     pub max_elems: u64,
+    /// called after every add-node API call with (accepted, operation name)
+    pub on_result: Option<Box<dyn FnMut(bool, &str)>>,
 }
 
 pub fn rand_shape(rng: &mut Rng, max_rank: u64, max_dim: u64) -> Vec<u64> {
@@ -85,6 +87,7 @@ impl<'a> B<'a> {
             allow_custom: true,
             allow_truncate: false,
             max_elems: 4096,
+            on_result: None,
         }
     }
 
@@ -93,6 +96,9 @@ impl<'a> B<'a> {
     }
 
     pub fn accept(&mut self, r: Result<Node>, name: &str) -> Option<Node> {
+        if let Some(f) = self.on_result.as_mut() {
+            f(r.is_ok(), name);
+        }
         match r {
             Ok(n) => {
                 // keep programs small: drop results that are too big
